@@ -48,6 +48,22 @@ end proj
 @[simp, grind =] theorem partialPkt_setPc (s : St) (t : Tid) (p : PC) : partialPkt (s.setPc t p) = partialPkt s := rfl
 @[simp, grind =] theorem partialPkt_setTodo (s : St) (t : Tid) (l : List Msg) : partialPkt (s.setTodo t l) = partialPkt s := rfl
 
+/-- **the model's append is kind-blind because the code's is**: every measured kind is enqueued at the back
+(`decide` over the regenerated table; a `_send` that inserts replies at the front breaks this obligation, and
+with it every theorem below, instead of being silently mis-modelled) -/
+theorem enqueuedAtBack_all : Rpyc.Gen.Sendq.enqueuedAtBack.all (·.2) = true := by decide
+
+theorem enqueueAtBack_true (k : Nat) : enqueueAtBack k = true := by
+  unfold enqueueAtBack
+  have h := enqueuedAtBack_all
+  rw [List.all_eq_true] at h
+  simp only [Bool.not_eq_true', List.any_eq_false, Bool.and_eq_true, beq_iff_eq, Bool.not_eq_true', not_and]
+  intro p hp _
+  simpa using h p hp
+
+@[simp] theorem enqueue_eq (q : List Item) (x : Item) : enqueue q x = q ++ [x] := by
+  unfold enqueue; rw [enqueueAtBack_true]; rfl
+
 /-- the safety invariant (Appendix C.2 of DESIGN.md) -/
 structure Inv (s : St) : Prop where
   lock_holder : s.lock = s.holder.isSome
@@ -384,6 +400,7 @@ theorem Inv.releaseX {s : St} {t : Tid} (h : Inv s) (hpc : s.pc t = .releaseX) :
 /-- the invariant is preserved by every line of every thread -/
 theorem Inv.step {s s' : St} {t : Tid} (h : Inv s) (hs : step s t = some s') : Inv s' := by
   unfold SendQ.step at hs
+  simp only [enqueue_eq] at hs
   split at hs
   next hpc => -- idle
     split at hs
@@ -463,6 +480,7 @@ theorem step_frame {s s' : St} {t : Tid} (hs : step s t = some s') :
     ∧ (∀ u, u ≠ t → s'.pc u = s.pc u ∧ s'.todo u = s.todo u)
     ∧ StepKind s s' t := by
   unfold SendQ.step at hs
+  simp only [enqueue_eq] at hs
   split at hs
   next hpc =>
     split at hs
@@ -720,6 +738,7 @@ theorem reachable_execAll {n : Nat} {prog : Tid → List Msg} (l : List Ev) :
 /-- only the stream writes of `Channel.send` touch the wire -/
 theorem step_wire {s s' : St} {t : Tid} (hs : step s t = some s') : s'.wire = s.wire ∨ s.pc t = .write := by
   unfold SendQ.step at hs
+  simp only [enqueue_eq] at hs
   split at hs
   next hpc => split at hs <;> cases hs; exact Or.inl rfl
   next m hpc => cases hs; exact Or.inl rfl
